@@ -160,6 +160,46 @@ class NTValue(tuple):
         return None
 
 
+class FoldMatch:
+    """A regex match computed by the analysis's own matcher (e2.preferred_match) for a folded call
+    of <compiled pattern>.match / fullmatch(text)."""
+
+    def __init__(self, text, end, caps, ngroups, names):
+        self.text = text
+        self.end = end
+        self.caps = caps
+        self.ngroups = ngroups
+        self.names = names        # name -> index
+
+    def _get(self, k):
+        if isinstance(k, str):
+            k = self.names.get(k)
+        if k == 0:
+            return self.text[:self.end]
+        if k in self.caps:
+            a, b = self.caps[k]
+            return self.text[a:b]
+        return None
+
+    def call(self, attr, args):
+        if attr == "group":
+            if not args:
+                return self._get(0)
+            vals = [self._get(a) for a in args]
+            return vals[0] if len(vals) == 1 else tuple(vals)
+        if attr == "groups":
+            return tuple(self._get(i) for i in range(1, self.ngroups + 1))
+        if attr == "groupdict":
+            return {n: self._get(i) for n, i in self.names.items()}
+        if attr in ("end",):
+            return self.end
+        if attr in ("start",):
+            return 0
+        if attr == "span":
+            return (0, self.end)
+        raise Undecided("match." + attr)
+
+
 class Probe:
     """Stand-in for the result of an external call in a simulated run (PureEval.ext_hook):
     records how it was made; every method call on it answers *answer*."""
@@ -434,7 +474,7 @@ class PureEval:
             return self.mod.path
         if name in ("enumerate", "len", "range", "tuple", "list", "dict", "str", "int",
                     "sorted", "zip", "min", "max", "sum", "set", "reversed", "any", "all",
-                    "isinstance", "frozenset", "float", "bool"):
+                    "isinstance", "frozenset", "float", "bool", "getattr", "format", "repr", "abs"):
             return Opaque("builtin", name)
         raise Undecided("unbound name " + name)
 
@@ -653,6 +693,10 @@ class PureEval:
         kwargs = {}
         for k in n.keywords:
             if k.arg is None:
+                d_ = self.ev(k.value, env)
+                if isinstance(d_, dict) and all(isinstance(x, str) for x in d_):
+                    kwargs.update(d_)
+                    continue
                 raise Undecided("**kwargs")
             kwargs[k.arg] = self.ev(k.value, env)
         if isinstance(f, ast.Attribute):
@@ -704,6 +748,8 @@ class PureEval:
                 m = obj.method(f.attr)
                 if m is not None:
                     return self.call_func(FuncRef(obj.cls.mod, m, closure={}), [obj] + list(args), kwargs)
+            if isinstance(obj, FoldMatch):
+                return obj.call(f.attr, args)
             if isinstance(obj, Probe):
                 return obj.answer
             if isinstance(obj, ClassRef) and self.ext_hook is not None:
@@ -720,7 +766,7 @@ class PureEval:
         fv = self.ev(f, env)
         if isinstance(fv, Opaque) and fv.kind == "builtin":
             name = fv.info
-            if name != "isinstance":
+            if name not in ("isinstance", "getattr"):
                 for a in args:
                     self._need_concrete(a)
             try:
@@ -738,6 +784,17 @@ class PureEval:
                     if len(range(*args)) > 100000:
                         raise Undecided("range too large")
                     return list(range(*args))
+                if name == "getattr" and len(args) in (2, 3) and isinstance(args[1], str):
+                    o_ = args[0]
+                    if isinstance(o_, Record):
+                        if args[1] in o_.fields:
+                            return o_.fields[args[1]]
+                        if len(args) == 3:
+                            return args[2]
+                        raise Undecided("record attribute " + args[1])
+                    if isinstance(o_, NTValue) and args[1] in o_.names:
+                        return o_[o_.names.index(args[1])]
+                    raise Undecided("getattr")
                 if name == "isinstance" and len(args) == 2:
                     types = args[1] if isinstance(args[1], (tuple, list)) else [args[1]]
                     known = {"str": str, "int": int, "float": float, "bool": bool, "list": list,
@@ -751,7 +808,8 @@ class PureEval:
                     raise Undecided("isinstance")
                 return {"len": len, "tuple": tuple, "list": list, "dict": dict, "str": str,
                         "int": int, "sorted": sorted, "min": min, "max": max, "sum": sum,
-                        "set": set, "any": any, "all": all, "frozenset": frozenset,
+                        "set": set, "any": any, "all": all, "frozenset": frozenset, "float": float,
+                        "bool": bool, "format": format, "repr": repr, "abs": abs,
                         "isinstance": lambda *a: (_ for _ in ()).throw(Undecided("isinstance"))
                         }[name](*args, **kwargs)
             except Undecided:
